@@ -212,6 +212,51 @@ def body_classes_2d(inp, H, W, layout="C"):
                 E[cname + tag + "_%s_in.native" % how] = e_gnat_g
                 A[cname + tag + "_%s_in.slim" % how] = hx.attempt(lambda: og.slim.array) if not isinstance(og, hx.Raised) else og
                 E[cname + tag + "_%s_in.slim" % how] = e_gslim_g
+    # histories (seeds C01-g, C01-h): (1) the caller re-uses / overwrites the buffer it passed in after construction -
+    # the structure must keep the values supplied at construction; (2) read .native, update one entry in place through
+    # the structure's own __setitem__, read again - both forms must describe the updated contents.
+    w = inp["c"]
+    if n >= 1:
+        for sn in (False, True):
+            tag = "_sn%d" % sn
+            for form, src, e_slim_, e_nat_ in (("slim_in", s, s, e_nat_s), ("nat_in", v, e_slim_v, e_nat_v)):
+                buf = np.array(src, dtype=object).copy()
+                o = hx.attempt(lambda: aa.Array2D(values=buf, mask=m, store_native=sn))
+                if isinstance(o, hx.Raised):
+                    continue
+                buf[...] = buf * 0 + w + 7.0              # caller overwrites its own array afterwards
+                A["Array2D%s_%s.after_caller_overwrite.slim" % (tag, form)] = hx.attempt(lambda: o.slim.array)
+                E["Array2D%s_%s.after_caller_overwrite.slim" % (tag, form)] = e_slim_
+                A["Array2D%s_%s.after_caller_overwrite.native" % (tag, form)] = hx.attempt(lambda: o.native.array)
+                E["Array2D%s_%s.after_caller_overwrite.native" % (tag, form)] = e_nat_
+            # derived structure edited in place must not change the source
+            a0 = aa.Array2D(values=np.array(s, dtype=object).copy(), mask=m, store_native=sn)
+            d0 = a0.slim
+            hx.attempt(lambda: d0.__setitem__(0, w))
+            A["Array2D%s.source_after_edit_of_derived_slim" % tag] = hx.attempt(lambda: a0.slim.array)
+            E["Array2D%s.source_after_edit_of_derived_slim" % tag] = s
+            # read native, update in place, read again
+            for cname, cls, vals_slim, kw2 in (("Array2D", aa.Array2D, s, {}), ("Grid2D", aa.Grid2D, gs, {})):
+                o = cls(values=np.array(vals_slim, dtype=object).copy(), mask=m, store_native=sn, **kw2)
+                first = hx.attempt(lambda: o.native.array)
+                k = n - 1
+                new_entry = w if cname == "Array2D" else np.array([w, w + 1.0], dtype=object)
+                idx = k if not sn else pos[k]
+                r = hx.attempt(lambda: o.__setitem__(idx, new_entry))
+                exp_slim = np.array(vals_slim, dtype=object).copy()
+                exp_slim[k] = new_entry
+                if cname == "Array2D":
+                    exp_nat = np.zeros((H, W), dtype=object)
+                    for kk, p in enumerate(pos):
+                        exp_nat[p] = exp_slim[kk]
+                else:
+                    exp_nat = np.zeros((H, W, 2), dtype=object)
+                    for kk, p in enumerate(pos):
+                        exp_nat[p][0], exp_nat[p][1] = exp_slim[kk, 0], exp_slim[kk, 1]
+                A["%s%s.native_after_inplace_update" % (cname, tag)] = hx.attempt(lambda: o.native.array) if not isinstance(r, hx.Raised) else r
+                E["%s%s.native_after_inplace_update" % (cname, tag)] = exp_nat
+                A["%s%s.slim_after_inplace_update" % (cname, tag)] = hx.attempt(lambda: o.slim.array) if not isinstance(r, hx.Raised) else r
+                E["%s%s.slim_after_inplace_update" % (cname, tag)] = exp_slim
     di = m.derive_indexes
     A["native_for_slim"] = hx.attempt(lambda: np.asarray(di.native_for_slim))
     E["native_for_slim"] = np.array(pos, dtype=float).reshape(n, 2)
